@@ -336,6 +336,17 @@ pub(crate) fn verif_read_tree(
             let skip = k >= 107;
             b.read_with_tree_with_first_node(tree, tree[skip as usize])
         }
+        // stress trees: the token tree with every probability 255 (111 root, 112 skip) or 1 (113 root, 114 skip);
+        // a frame header can set such probabilities, and only they make one request consume more than 32 bits
+        111..=114 => {
+            const ALL_255: [TreeNode; NUM_DCT_TOKENS - 1] =
+                tree_nodes_from(DCT_TOKEN_TREE, [255; NUM_DCT_TOKENS - 1]);
+            const ALL_1: [TreeNode; NUM_DCT_TOKENS - 1] =
+                tree_nodes_from(DCT_TOKEN_TREE, [1; NUM_DCT_TOKENS - 1]);
+            let tree = if k <= 112 { &ALL_255 } else { &ALL_1 };
+            let skip = k % 2 == 0;
+            b.read_with_tree_with_first_node(tree, tree[skip as usize])
+        }
         _ => return None,
     })
 }
